@@ -27,7 +27,8 @@ NSHARDS = 16
 
 def plan(tier, seed):
     n = 16000 if tier == "quick" else 1000000
-    return [{"kind": "random", "start": p * (n // NSHARDS), "count": n // NSHARDS} for p in range(NSHARDS)]
+    return [{"kind": "random", "start": p * (n // NSHARDS), "count": n // NSHARDS} for p in range(NSHARDS)] + \
+        [{"kind": "huge", "start": 3 * p, "count": 3} for p in range(2 if tier == "quick" else 8)]
 
 
 def judge_repeat(ctx, cid, x, y, r, gx, gy, info, what="repeat"):
@@ -73,12 +74,15 @@ def run_case(ctx, kind_, idx):
     from traffic_weaver.process import repeat
     rng = ctx.rng(kind_, idx)
     cid = ctx.case_id(kind_, idx)
-    x, y, meta = R.gen_series(rng, 2, 40, ties_share=0.2, long_share=R.LONG_SHARE)
+    x, y, meta = R.gen_series(rng, 2, 40, ties_share=0.2, long_share=R.LONG_SHARE, real_valued=kind_ == "huge",
+                              force_m=int(rng.integers(66000, 90001)) if kind_ == "huge" else None)
     if len(x) > 2 and abs((x[1] - x[0]) - (x[-1] - x[-2])) < 1e-12 and rng.integers(0, 4):
         x = x.copy()
         x[-1] = x[-1] + (x[-1] - x[-2]) * float(rng.choice([0.5, 1.0, 2.5]))   # make last step != first step
         meta["xcls"] += "+laststep"
     mode = ["function", "composition", "weaver"][int(rng.integers(0, 3))]
+    if kind_ == "huge":           # a day of per-second samples repeated a few times
+        mode = ["function", "weaver", "composition"][idx % 3]
     info = {"mode": mode, "m": len(x), "xcls": meta["xcls"]}
     if len(x) <= 10:
         info.update({"x": x, "y": y})
@@ -86,7 +90,7 @@ def run_case(ctx, kind_, idx):
     try:
         with fp_watch(ctx):
             if mode == "function":
-                r = int(rng.integers(1, 13))
+                r = int(rng.integers(1, 13)) if kind_ != "huge" else int(rng.integers(2, 5))
                 xin, xk = gen.as_container(rng, x)
                 yin, yk = gen.as_container(rng, y)
                 if rng.integers(0, 10) == 0:
@@ -119,7 +123,7 @@ def run_case(ctx, kind_, idx):
                 if r >= 2 and distinct_steps:
                     ctx.nontriv("c12", idx)
             elif mode == "composition":
-                pairs = [(a, b) for a in range(1, 13) for b in range(1, 13) if a * b <= 24]
+                pairs = [(a, b) for a in range(1, 13) for b in range(1, 13) if a * b <= (24 if kind_ != "huge" else 4)]
                 a, b = pairs[int(rng.integers(0, len(pairs)))]
                 info.update({"a": a, "b": b})
                 (a_arg, at), (b_arg, bt), (ab_arg, abt) = (gen.count_arg(rng, v) for v in (a, b, a * b))
@@ -139,10 +143,10 @@ def run_case(ctx, kind_, idx):
                 if a * b >= 2 and distinct_steps:
                     ctx.nontriv("c12", idx)
             else:
-                r = int(rng.integers(1, 7))
+                r = int(rng.integers(1, 7)) if kind_ != "huge" else int(rng.integers(2, 4))
                 info["r"] = r
                 wv = Weaver(x.copy(), y.copy())
-                if rng.integers(0, 3):
+                if rng.integers(0, 3) and kind_ != "huge":
                     from . import _weaver_ops as W
                     info["history"] = W.random_history(rng, wv, 1, 3, allow=W.DOMAIN_OPS, max_len=120)
                 bx, by = (np.array(a, dtype=float).copy() for a in wv.get())
